@@ -2,7 +2,7 @@
 from common_tb import COMMON_TB
 
 CFG = dict(
-    id="C01", tie="Tie.C01", n_quick=1100, n_thorough=6000, thorough_seeds=3,
+    id="C01", tie="Tie.C01", n_quick=1100, n_thorough=3500, thorough_seeds=3,
     rule="real ImmuStore histories in temp dirs (5..40 transactions, 1..15 entries with prefixed keys, KV metadata "
          "deleted/expiring/non-indexable, tx metadata extra, header versions 0 and 1) alternate with synthetic "
          "well-formed histories whose binary linking lags (BlTxID_k any non-decreasing value < k, up to 5 behind; real "
